@@ -342,3 +342,11 @@ PROPS['C17']['technique'] = 'bounded model checking with Kani/CBMC (scripted Seq
 PROPS['C17']['bounds'] += ' M: visit_seq for N <= 3 (thorough 6) unrolled and ALL N < 2^63 by loop-invariant induction; element count any (unrolled: <= N + 2), every size_hint answer arbitrary (None or any usize, independently per call), element error or panic at every call of the source and of the error constructor.'
 PROPS['C17']['assumptions'] += ['M stub: SeqAccess::size_hint returns None or any usize, except Some(0) while elements remain (the property\'s exclusion); next_element returns Ok(Some(fresh element)) while elements remain, Ok(None) after, Err or panics at any call; de::Error::invalid_length returns an opaque error or panics']
 PROPS['C17']['functions'] += ['IntrusiveArrayBuilder::{new,iter_position,finish,array_assume_init,drop}']
+
+# C08: "once per index, in index order" through engine M as well (added after the third seeded round: pointer-range loops that
+# degenerate for zero-sized element types were invisible to harnesses instantiated with sized elements only)
+ORDER = ['order.generate', 'order.box_generate', 'order.map', 'order.ref.map', 'order.zip', 'order.fold', 'order.clone']
+PROPS['C08']['mir'] = {'quick': [mrun(ORDER, nmax=3), {'scenarios': [x + '@ind' for x in ORDER], 'nmax': 3, 'timeout': 1800, 'soft_inconclusive': True}],
+                       'thorough': [mrun(ORDER, nmax=6), {'scenarios': [x + '@ind' for x in ORDER], 'nmax': 3, 'timeout': 1800, 'soft_inconclusive': True}]}
+PROPS['C08']['technique'] = 'bounded model checking with Kani/CBMC (logging closures, element types of non-zero and zero size) + symbolic execution of rustc MIR with z3: the k-th call of the caller\'s function receives element/index k, its result lands in slot k, exactly N calls, no panic of the crate\'s own; element size symbolic (0 included); unrolled N <= 3/6 and all N by loop-invariant induction'
+PROPS['C08']['bounds'] += ' M: generate, boxed generate, map (owned and &), zip, fold, clone: N <= 3 (thorough 6) unrolled and ALL N < 2^63 by induction; size_of::<T>() symbolic including 0 (pointers compare by address).'
